@@ -39,7 +39,7 @@ ASSUMPTIONS = [
     "malformed strings (outside the three grammars) are compared for information only: rejecting them is property C01",
     "format()/str() of Python are parameters of the template specification",
     "template texts: slices are well formed ([1:2:3] or [1,,2] make the code raise ValueError inside the slice parser - not modelled), "
-    "an entry n:n is not generated (the model keeps (n, n) for both the index n and the empty range n:n), near-miss texts slice arrays down to scalars or 2-d parts only",
+    "near-miss texts slice arrays down to scalars or 2-d parts only (the empty range n:n, kept apart from the index n, is generated on str nodes)",
 ]
 EXPLANATION = ("theorems: every pass of the regenerated step tables reduces exactly the sub-trees of its priority level, left to right "
                "(generic, by induction on the tree); hence the token machine evaluates every well-formed numerical / logical tree to its "
@@ -876,11 +876,14 @@ def tpl_value(E, ref, sl):
     else:
         v = E.env.nodes.query(name)[0].value.value
     if sl:
+        # an entry (n, n) is the index n; (a, b) a range; (n, n, "range") the empty range n:n (kept apart by the model's scan)
+        def ix(e):
+            return e[0] if (len(e) == 2 and e[0] == e[1] and e[0] is not None) else slice(e[0], e[1])
         if isinstance(v, str):
-            (a, b), = sl
-            return v[a] if a == b and a is not None else v[slice(a, b)]
+            e, = sl
+            return v[ix(e)]
         arr = np.array(v)
-        idx = tuple(a if (a == b and a is not None) else slice(a, b) for a, b in sl)
+        idx = tuple(ix(e) for e in sl)
         v = arr[idx]
         if getattr(v, "shape", None) == ():
             v = v.item()
@@ -991,7 +994,7 @@ def gen_tpl_nearmiss(rng, E):
         elif n == "mat":
             slices = ["", "[0,1]", "[1,2]", "[:,1:]", "[0,1][1,0]"]
         elif kind == "str":
-            slices = ["", "[0]", "[1:]", "[:2]", "[0:2]", "[5:]"]
+            slices = ["", "[0]", "[1:]", "[:2]", "[0:2]", "[5:]", "[1:1]", "[0:0]", "[1]"]
         fmts = {"float": ["", ":.3e", ":.2f", ":e", ":d", ":10.4f"], "int": ["", ":d", ":05d", ":f", ":s"],
                 "str": ["", ":s", ":10s", ":d"], "bool": ["", ":d", ":s"]}.get(kind, ["", ":.2e", ":s"])
         out += rng.choice(["{{", "{{", "{{", "{ {", "{  {", "{", "{{{"])
